@@ -48,6 +48,7 @@ import TonVerif.Proofs.SrcBocDeser
 import TonVerif.Proofs.SrcBocEmit
 import TonVerif.Proofs.SrcBocAny
 import TonVerif.Proofs.BocRoundTripAny
+import TonVerif.Proofs.SrcEntry
 
 namespace TonVerif.Properties.C03
 open TonVerif TonVerif.Model TonVerif.Model.BocForms TonVerif.Spec.Boc TonVerif.Proofs.BocEmit TonVerif.Proofs.BocForms
@@ -375,5 +376,130 @@ example : ∃ p d, Cell.build id dagTree = some p ∧ NoCollision p ∧ order 50
     exact ⟨p, d, h1, h2, hd, by omega, hs.2⟩
 
 end SrcEmit
+
+/-! ## the entry points and conversions on the working tree's own code (regenerated from the source on every run)
+
+`Generated/EntrySrc.lean` is regenerated from cell.py / slice.py / builder.py (harness/translate/entrysrc.py + pyvalue.py): the VALUE each
+entry point / conversion returns and when it raises.  A constructed `Cell` is its object value `PCell` (cached attributes + child
+objects); `Cell(bits, refs, type)` inside these methods and the class passed to `Boc.deserialize` is the REGENERATED constructor
+(`Py.newCell`, Generated/CellCtor.lean), `Builder().store_cell` the REGENERATED `Builder.store_cell` (Generated/BuilderOps.lean), `Boc(data)` /
+`boc.deserialize` the regenerated `Boc.__init__` / `Boc.deserialize` (lean/TonVerif/PyEntry.lean). -/
+section SrcEntry
+open TonVerif.Proofs.SrcEntry TonVerif.Generated.EntrySrc TonVerif.Generated.BocEmitSrc
+
+/-- SOURCE TIE of the entry points: for EVERY argument `d` (bytes or str), cell object `p`, slice object `s` and builder object `b`, read
+through the views (`cellView p` = the tree `p` unfolds to + its cached info, `sliceView` = remaining bits + trees of the REMAINING
+references, `builderView`): the regenerated `Cell.from_boc` / `Cell.one_from_boc` (incl. the `len(cells) > 1` raise and the IndexError
+of `cells[0]`) / `Slice.one_from_boc` / `Builder.one_from_boc` are the hand model's `fromBocAny` / `cellOne` / `sliceOne` / `builderOne`
+(Model/BocEntry.lean), no returned root is `None`; `Cell.begin_parse` / `Cell.to_builder` (refusing exotic cells, and the two capacity
+raises of `store_cell`) are the model's `beginParse` / `toBuilder`; `Cell.copy`, `Slice.to_cell` (the references from `ref_offset` on) and
+`Builder.end_cell` are the constructor model `mkCell` on exactly these bits / references / type. -/
+theorem c03_src_entrypoints (H : Bytes → Bytes) (d : Input) (p : PCell) (s : Py.SliceObj PCell) (b : Py.BuilderObj PCell) :
+    (Cell_from_boc H d).map (List.map (Option.map cellView)) = (fromBocAny H d).map (List.map some) ∧
+    Builder_from_boc H d = Cell_from_boc H d ∧
+    (Cell_one_from_boc H d).map (Option.map cellView) = (cellOne H d).map some ∧
+    (Slice_one_from_boc H d).map sliceView = sliceOne H d ∧
+    (Builder_one_from_boc H d).map builderView = builderOne H d ∧
+    (Cell_begin_parse H p).map sliceView = some (beginParse (treeOf p)) ∧ Cell_to_slice H p = Cell_begin_parse H p ∧
+    (Cell_to_builder H p).map builderView = toBuilder (treeOf p) ∧
+    (Cell_copy H p).map cellView = BocParse.mkCell H p.info.bits (p.refs.map cellView) p.info.kind ∧
+    (Slice_to_cell H s).map cellView = BocParse.mkCell H s.bits ((s.refs.drop s.ref_offset).map cellView) s.type_ ∧
+    (Builder_end_cell H b).map cellView = BocParse.mkCell H b.bits (b.refs.map cellView) b.type_ := by
+  refine ⟨fromBoc_view H d, rfl, ?_, ?_, ?_, begin_parse_view H p, to_slice_eq H p, to_builder_view H p, ?_, ?_, ?_⟩
+  · rw [one_from_boc_eq, ← cellOneG_view]
+    cases cellOneG (Py.newCell H) d <;> rfl
+  · rw [slice_one_from_boc_eq, sliceOneG_view]
+  · rw [builder_one_from_boc_eq, builderOneG_view]
+  · rw [copy_eq, newCell_view]
+  · rw [slice_to_cell_eq, newCell_view]
+  · rw [end_cell_eq, newCell_view]
+
+/-- **THE ROUND TRIP through the regenerated emitter, the regenerated `Boc.__init__` / parser / CONSTRUCTOR and the regenerated entry
+points, on object values**: under the hypotheses of `c03_roundtrip_src2` (root `.mk kind bits refs`, its object graph `p`), for each of
+the 6 valid option sets the regenerated `to_boc` returns `bs`, and on `bs`, `bs.hex()` and `b64encode(bs)`: the regenerated
+`Cell.one_from_boc` returns THE ORIGINAL OBJECT VALUE `p` (the same cached hashes / depths / mask / bits / type at the root and, recursively,
+at every child object), `Cell.from_boc` the list `[p]`; `Slice.one_from_boc` the slice with all data bits, all child objects, the root's
+type and nothing consumed; `Builder.one_from_boc` the builder with exactly these bits / child objects for an ordinary root and a raise
+for an exotic one (the known finding); and converting back gives the original again: `begin_parse().to_cell()`, `copy()` and (ordinary
+root) `to_builder().end_cell()` return `p`. -/
+theorem c03_roundtrip_src3 (H : Bytes → Bytes) (kind : Int) (bits : Bits) (refs : List Cell)
+    (wf : TreeWF H (.mk kind bits refs)) (ty : Typed (.mk kind bits refs)) (p : PCell)
+    (hb : Cell.build H (.mk kind bits refs) = some p) (nc : NoCollision p) (fuel : Nat) (d : Py.KDict PCell Unit)
+    (h : order fuel p [] = some d) (o : Opts) (hv : o.valid = true) (hn : (Py.dictKeys d).length < 2 ^ 32)
+    (hP : (payloadOf (sizeW (orderRecs (Py.dictKeys d))) (orderRecs (Py.dictKeys d))).length * 2 < 2 ^ 64) :
+    ∃ bs, to_boc fuel p o.hasIdx o.hasCrc o.hasCache o.flags = some bs ∧
+      (∀ form ∈ [Sum.inl bs, Sum.inr (hexEnc bs), Sum.inr (b64Enc bs)],
+        Cell_one_from_boc H form = some (some p) ∧ Cell_from_boc H form = some [some p] ∧
+        Slice_one_from_boc H form = some ⟨bits, p.refs, kind, 0⟩ ∧
+        Builder_one_from_boc H form = (if kind = -1 then some ⟨bits, p.refs, -1⟩ else none)) ∧
+      (Cell_begin_parse H p).bind (Slice_to_cell H) = some p ∧ Cell_copy H p = some p ∧
+      (kind = -1 → (Cell_to_builder H p).bind (Builder_end_cell H) = some p) := by
+  obtain ⟨bs, h1, h2, h3⟩ := c03_roundtrip_src2 H _ wf ty p hb nc fuel d h o hv hn hP
+  rw [c03_src_parser] at h3
+  have hfb : BocParse.fromBoc H bs = some [(.mk kind bits refs, p.info)] := by
+    cases hx : BocParse.fromBoc H bs with
+    | none => rw [hx] at h3; cases h3
+    | some l =>
+      rw [hx] at h3
+      simp only [Option.map_some, Option.some.injEq] at h3
+      match l, h3 with
+      | [x], h3 => simp only [List.map_cons, List.map_nil, List.cons.injEq, Option.some.injEq, and_true] at h3; rw [h3]
+  have hdes := deserialize_roundtrip H _ p hb bs p.info hfb
+  have htree := (build_tree H _ p hb).1
+  rw [treeOf_eq] at htree
+  have hk : p.info.kind = kind := by injection htree
+  have hbits : p.info.bits = bits := by injection htree
+  have hrefs : p.refs.map treeOf = refs := by injection htree
+  obtain ⟨l1, l2⟩ := root_limits H kind bits refs wf ty
+  have l2' : p.refs.length ≤ 4 := by rw [← hrefs] at l2; simpa using l2
+  have hself := newCell_self H p (built_of_build H _ p hb)
+  refine ⟨bs, h1, fun form hf => ?_, ?_, ?_, ?_⟩
+  · have hin : inputBytes form = some bs := by rw [← TonVerif.Proofs.SrcBocEmit.src_boc_init_eq]; exact h2 form hf
+    refine ⟨?_, ?_, ?_, ?_⟩
+    · rw [one_from_boc_eq]; simp [cellOneG, fromBocAnyG, hin, hdes]
+    · rw [from_boc_eq]; simp [hin, hdes]
+    · rw [slice_one_from_boc_eq]; simp [sliceOneG, fromBocAnyG, hin, hdes, hk, hbits]
+    · rw [builder_one_from_boc_eq]
+      simp only [builderOneG, fromBocAnyG, hin, hdes, Option.bind_some, List.getElem?_cons_zero]
+      rw [to_builder_eq H p (by rw [hbits]; exact l1) l2', hk, hbits]
+  · rw [begin_parse_eq]
+    simp only [Option.bind_some]
+    rw [slice_to_cell_eq]
+    simpa using hself
+  · rw [copy_eq]; exact hself
+  · intro hkind
+    rw [to_builder_eq H p (by rw [hbits]; exact l1) l2', hk, if_pos hkind]
+    simp only [Option.bind_some]
+    rw [end_cell_eq]
+    simpa [hk, hkind] using hself
+
+/-- non-vacuity: the DAG with sharing (`dagTree`, toy hash `id`, budget 50) meets the hypotheses of `c03_roundtrip_src3` (they are those
+of `c03_roundtrip_src2`, see the example above), so with index + CRC + cache bits the regenerated `Cell.one_from_boc` returns the original
+object value from the bytes, the hex text and the base64 text -/
+example : ∃ p bs, Cell.build id dagTree = some p ∧ to_boc 50 p true true true 0 = some bs ∧
+    ∀ form ∈ [Sum.inl bs, Sum.inr (hexEnc bs), Sum.inr (b64Enc bs)],
+      Cell_one_from_boc id form = some (some p) ∧ Slice_one_from_boc id form = some ⟨[true, false, true], p.refs, -1, 0⟩ ∧
+      Builder_one_from_boc id form = some ⟨[true, false, true], p.refs, -1⟩ := by
+  obtain ⟨p, ord, h1, h2, h3, h4, h5⟩ := dagTree_hyps
+  have hs : (match Cell.build id dagTree with
+      | some p => (match order 50 p [] with
+        | some d => decide ((Py.dictKeys d).length = 4) &&
+            decide ((payloadOf (sizeW (orderRecs (Py.dictKeys d))) (orderRecs (Py.dictKeys d))).length * 2 < 2 ^ 64)
+        | none => false)
+      | none => false) = true := by decide +kernel
+  rw [h1] at hs
+  simp only at hs
+  cases hd : order 50 p [] with
+  | none => rw [hd] at hs; cases hs
+  | some d =>
+    rw [hd] at hs
+    simp only [Bool.and_eq_true, decide_eq_true_eq] at hs
+    obtain ⟨wf, ty⟩ := dagTree_ok
+    obtain ⟨bs, r1, r2, _⟩ := c03_roundtrip_src3 id _ _ _ wf ty p h1 h2 50 d hd ⟨true, true, true, 0⟩ (by decide) (by omega) hs.2
+    refine ⟨p, bs, h1, r1, fun form hf => ?_⟩
+    obtain ⟨a, _, c, e⟩ := r2 form hf
+    exact ⟨a, c, by simpa using e⟩
+
+end SrcEntry
 
 end TonVerif.Properties.C03
